@@ -348,9 +348,42 @@ func runProp[C any](t *testing.T, id, rule string, gen func(*rapid.T) C, prop fu
 		c := gen(rt)
 		o := runCase(id, c, prop)
 		if o.Fail != "" {
+			if os.Getenv("VERIF_SURVEY") != "" {
+				surveyAdd(id, o.Fail)
+				return
+			}
 			rt.Fatalf("%s: %s", id, o.Fail)
 		}
 	})
+	surveyPrint(t, id)
+}
+
+var (
+	surveyMu sync.Mutex
+	survey   = map[string]int{}
+)
+
+func surveyAdd(id, fail string) {
+	key := fail
+	if len(key) > 160 {
+		key = key[:160]
+	}
+	surveyMu.Lock()
+	survey[id+": "+key]++
+	surveyMu.Unlock()
+}
+
+func surveyPrint(t *testing.T, id string) {
+	surveyMu.Lock()
+	defer surveyMu.Unlock()
+	keys := make([]string, 0, len(survey))
+	for k := range survey {
+		keys = append(keys, k)
+	}
+	sort.Strings(keys)
+	for _, k := range keys {
+		t.Logf("SURVEY %6d  %s", survey[k], k)
+	}
 }
 
 // runEnum runs the property over an explicit, finite list of cases (exhaustive sub-spaces).
